@@ -4,6 +4,7 @@ import (
 	"fmt"
 	"go/ast"
 	"go/token"
+	"go/types"
 	"math"
 	"math/big"
 	"strings"
@@ -15,6 +16,7 @@ func checkC20(p *Prog, r *Report) {
 	c20Lookup(p, r)
 	c20Daily(p, r)
 	c20Sinus(p, r)
+	c20SeriesId(p, r)
 }
 
 func c20Lookup(p *Prog, r *Report) {
@@ -341,4 +343,116 @@ func c20Sinus(p *Prog, r *Report) {
 			r.Ob("sinusoid:"+strings.TrimPrefix(key, "hermes."), "-", false, "no evaluation of the sinusoidal level in "+key)
 		}
 	}
+}
+
+// c20SeriesId: the level can only follow "the supplied series" if the reader
+// keeps exactly the lines of the requested id: the id test must require the
+// id at the start of the line AND a separator as the very next character.
+func c20SeriesId(p *Prog, r *Report) {
+	r.Rule("C20.R6", "series selection: the time-series reader keeps a line only when the id filter accepts it, and the filter requires the requested id as line prefix followed immediately by a separator character (an id that merely starts with the requested id must not match)", 2)
+	rd := p.Funcs["hermes.ReadGroundWaterTimeSeries"]
+	if rd == nil {
+		r.Ob("reader", "-", false, "ReadGroundWaterTimeSeries not found")
+		return
+	}
+	info := rd.Pkg.TypesInfo
+	// the stores into the series are guarded by one filter call on the scanned line and the id parameter
+	var filter *types.Func
+	var fpos token.Pos
+	ast.Inspect(rd.Decl.Body, func(n ast.Node) bool {
+		is, ok := n.(*ast.IfStmt)
+		if !ok {
+			return true
+		}
+		call, ok := is.Cond.(*ast.CallExpr)
+		if !ok {
+			return true
+		}
+		writes := false
+		ast.Inspect(is.Body, func(m ast.Node) bool {
+			if as, ok := m.(*ast.AssignStmt); ok {
+				for _, l := range as.Lhs {
+					if f := fieldOf(info, l); f == "GWTimeSeriesValues" || f == "GWTimestamps" {
+						writes = true
+					}
+				}
+			}
+			return true
+		})
+		if writes {
+			filter = callee(info, call)
+			fpos = call.Pos()
+		}
+		return true
+	})
+	if filter == nil {
+		r.Ob("reader:filter", p.Pos(rd.Decl.Pos()), false, "the stores into the series are not guarded by a single id-filter call")
+		return
+	}
+	r.Ob("reader:filter", p.Pos(fpos), true, "series entries are stored only for lines accepted by "+filter.Name())
+	ff := p.ByObj[filter]
+	if ff == nil {
+		r.Ob("filter:exact", p.Pos(fpos), false, "the id filter "+filter.FullName()+" is not an in-scope function: exactness not established")
+		return
+	}
+	finfo := ff.Pkg.TypesInfo
+	names := paramNames(ff.Decl)
+	if len(names) != 2 {
+		r.Ob("filter:exact", p.Pos(ff.Decl.Pos()), false, "unexpected filter signature")
+		return
+	}
+	line, id := names[0], names[1]
+	prefixOK, sepOK := false, 0
+	isLenId := func(e ast.Expr) bool {
+		c, ok := e.(*ast.CallExpr)
+		if !ok || len(c.Args) != 1 {
+			return false
+		}
+		f, ok := c.Fun.(*ast.Ident)
+		a, ok2 := c.Args[0].(*ast.Ident)
+		return ok && ok2 && f.Name == "len" && a.Name == id
+	}
+	ast.Inspect(ff.Decl.Body, func(n ast.Node) bool {
+		switch t := n.(type) {
+		case *ast.BinaryExpr:
+			if t.Op != token.EQL {
+				return true
+			}
+			// line[0:len(id)] == id
+			if se, ok := t.X.(*ast.SliceExpr); ok {
+				if x, ok := se.X.(*ast.Ident); ok && x.Name == line && isLenId(se.High) {
+					if y, ok := t.Y.(*ast.Ident); ok && y.Name == id {
+						prefixOK = true
+					}
+				}
+			}
+			// line[len(id)] == <separator constant>
+			if ie, ok := t.X.(*ast.IndexExpr); ok {
+				if x, ok := ie.X.(*ast.Ident); ok && x.Name == line && isLenId(ie.Index) {
+					if tv, ok := finfo.Types[t.Y]; ok && tv.Value != nil {
+						sepOK++
+					}
+				}
+			}
+		case *ast.CallExpr:
+			if f := callee(finfo, t); f != nil && f.Pkg() != nil && f.Pkg().Path() == "strings" && f.Name() == "HasPrefix" && len(t.Args) == 2 {
+				if x, ok := t.Args[0].(*ast.Ident); ok && x.Name == line {
+					if y, ok := t.Args[1].(*ast.Ident); ok && y.Name == id {
+						prefixOK = true
+					}
+					// HasPrefix(line, id+"<sep>")
+					if be, ok := t.Args[1].(*ast.BinaryExpr); ok && be.Op == token.ADD {
+						if y, ok := be.X.(*ast.Ident); ok && y.Name == id {
+							if tv, ok := finfo.Types[be.Y]; ok && tv.Value != nil {
+								prefixOK = true
+								sepOK++
+							}
+						}
+					}
+				}
+			}
+		}
+		return true
+	})
+	r.Ob("filter:exact", p.Pos(ff.Decl.Pos()), prefixOK && sepOK > 0, fmt.Sprintf("%s: id required as line prefix: %v; character directly after the id compared with %d separator constant(s) (a test on the rest of the line as a whole lets 'W1' match the lines of 'W10')", filter.Name(), prefixOK, sepOK))
 }
